@@ -280,6 +280,14 @@ Section Transform.
     rewrite Hm. cbn [String.eqb Ascii.eqb Bool.eqb orb]. rewrite Ho. apply refused_err.
   Qed.
 
+  Lemma transform_dims_wrong (c : tcall (A:=A)) :
+    List.length (filter (fun d => memS d (axis_dims c)) (dnames (dims (tc_da c)))) <> 1 ->
+    refused (grid_transform o isnan nanv ln half c).
+  Proof.
+    intros H. unfold grid_transform. destruct (tc_periodic c); [apply refused_err|].
+    destruct (filter _ _) as [|d [|d2 r]]; [apply refused_err | exfalso; apply H; reflexivity | apply refused_err].
+  Qed.
+
   Definition strictly (lt : A -> A -> bool) (l : list A) : bool :=
     forallb (fun d => lt d (zero o)) (window2 (fun a b => sub o b a) l).
 
